@@ -74,7 +74,9 @@ class C20(Prop):
     id = "C20"
     theorems = ["sim_store", "load_store", "ondisk_read_eq_take", "ncPut_spec", "ncPut_length", "ondisk_write_eq_put", "ondisk_write_error", "ondisk_history", "ondisk_history_read", "writeRecord_append",
                 "read_multi_eq_memory", "read_multi_inconsistent", "read_multi_file_error", "read_multi_var_eq_memory",
-                "read_multi_consistent_counterexample"]
+                "read_multi_consistent_counterexample",
+                "readFile_storeDs_eq", "readFile_storeDs", "reloadDs_same", "write_read_multi_eq_memory", "write_read_multi_inconsistent",
+                "readFile_storeDs_shared_counterexample", "readFile_storeDs_keys_counterexample"]
     rule = ("files written through dimarray (vendored netCDF4 stand-in): a variable of rank 0-3 with int/float/str labels in any "
             "order is read through the on-disk handle - open_nc(f)[name][idx], .ix / .loc / .sel / .isel, read_nc(f, name, "
             "indices=, indexing=, tol=) - with every index form of C01/C02 (scalars, lists, masks, slices, dicts, tolerance) in "
@@ -90,6 +92,8 @@ class C20(Prop):
             "dimensions, labels, label kinds, cells - against the model's multi-file read (OnDisk.readMulti / readMultiVar of "
             "Lib/OnDiskMulti.lean: per-file DatasetOnDisk.read on the flat stores, the consistency loop, the dispatch to "
             "DSV.concatenateDsA + reindexAxisDs / DSV.stackDsA with align / sort / join / keys; driver op read_multi). "
+            "Proof-only: readFile (storeDs ds) none none returns ds (keys, axes, attrs, cells; WfDs: plain axes, distinct dims / keys, "
+            "shared axes, shapes), hence the multi-file read of files written from Datasets is stack_ds / concatenate_ds of them (SameDs). "
             "Non-trivial = rank >= 1; distinct = canonical JSON")
     assumptions = ["PARTIAL: the vendored stand-in's fidelity to netCDF4-python / libnetcdf (orthogonal indexing with "
                    "unsorted / repeated integer sequences, 0-d variables, unlimited dimensions) is assumed"]
